@@ -16,12 +16,13 @@ import FastorModel.Driver.QR
 import FastorModel.Driver.QRF
 import FastorModel.Driver.LU
 import FastorModel.Driver.Solve
+import FastorModel.Driver.Views
 /-
   `fmodel`: line-protocol driver.  Reads one case per line on stdin, prints the model's observables
   for it.  The harness prints the implementation's observables for the same case in the same format.
   Command handlers live in FastorModel/Driver/*.lean (no Mathlib imports there, so that this links).
 -/
-open Fastor Fastor.Driver
+open Fastor Fastor.Driver Fastor.Driver.ViewsCmd
 
 def step (line : String) : String :=
   match line.trimAscii.toString.splitOn " " with
@@ -60,6 +61,10 @@ def step (line : String) : String :=
   | "solve" :: rest => runSolve (parseKV rest)
   | "fsub" :: rest => runFsub (parseKV rest)
   | "bsub" :: rest => runBsub (parseKV rest)
+  | "view" :: rest => runView (parseKV rest)
+  | "sidx" :: rest => runSidx (parseKV rest)
+  | "iseq" :: rest => runIseq (parseKV rest)
+  | "diag" :: rest => runDiag (parseKV rest)
   | _ => "bad-op"
 
 partial def loop (h : IO.FS.Stream) (out : IO.FS.Stream) : IO Unit := do
